@@ -6,7 +6,7 @@ from props import judges
 from props.common import TRUSTED_BASE, ASSUMPTIONS
 
 ID = "C08"
-LEAN_MODULES = ["LexVerif.Props.C08", "LexVerif.Props.C08Decimal", "LexVerif.Props.C08Parser", "LexVerif.Props.C03", "LexVerif.Props.C04", "LexVerif.Props.RoundNE", "LexVerif.Props.Literals.WriteFloatWrite", "LexVerif.Props.Literals.WriteFloatShared", "LexVerif.Props.Literals.ParseFloatParse", "LexVerif.Props.Literals.ParseIntegerAlgorithm", "LexVerif.Props.Literals.WriteIntegerApi", "LexVerif.Props.Literals.CoreLib"]
+LEAN_MODULES = ["LexVerif.Props.TablesWrite", "LexVerif.Props.TablesParse", "LexVerif.Props.C03Tie", "LexVerif.Props.Literals.WriteFloatAlgorithm", "LexVerif.Props.Literals.WriteFloatCompact", "LexVerif.Props.Literals.WriteFloatBinary", "LexVerif.Props.Literals.WriteFloatHex", "LexVerif.Props.Literals.WriteFloatRadix", "LexVerif.Props.Literals.WriteIntegerDecimal", "LexVerif.Props.Literals.WriteIntegerJeaiii", "LexVerif.Props.Literals.WriteIntegerDigitCount", "LexVerif.Props.Literals.WriteIntegerAlgorithm", "LexVerif.Props.Literals.WriteIntegerRadix", "LexVerif.Props.Literals.ParseFloatLemire", "LexVerif.Props.Literals.ParseFloatSlow", "LexVerif.Props.Literals.ParseFloatBigint", "LexVerif.Props.Literals.ParseFloatBellerophon", "LexVerif.Props.Literals.ParseFloatBinary", "LexVerif.Props.C08", "LexVerif.Props.C08Decimal", "LexVerif.Props.C08Parser", "LexVerif.Props.C03", "LexVerif.Props.C04", "LexVerif.Props.RoundNE", "LexVerif.Props.Literals.WriteFloatWrite", "LexVerif.Props.Literals.WriteFloatShared", "LexVerif.Props.Literals.ParseFloatParse", "LexVerif.Props.Literals.ParseIntegerAlgorithm", "LexVerif.Props.Literals.WriteIntegerApi", "LexVerif.Props.Literals.CoreLib"]
 GEN = ["literals"]
 TRUSTED = TRUSTED_BASE + [
     "integers: the round trip is composed from separately proved halves (C03 writer = numeral, C04 parser = exact scan; oracle exactness) for plain formats; for flagged integer formats it is measured",
@@ -59,6 +59,24 @@ def int_ops(rng, fs, quick):
                     vals = rng.sample(vals, min(len(vals), 14)) + [lo, hi, 0]
                 for v in vals:
                     ops.append("wi %s %s %d 200" % (ty, f, v))
+    return ops
+
+
+def short_decimal_ops(rng, quick):
+    """floats whose shortest decimal significand is short (1 .. 5 digits: every d <= 2100, sampled above), at several
+    exponents: the writers' digit-count and table look-ups are indexed by the significand, not by the float's bits"""
+    import struct
+    ops = []
+    f = gens.fmt_hex(gens.pack(10))
+    ds = list(range(1, 2101)) + [rng.randrange(2101, 100000) for _ in range(400 if quick else 20000)]
+    for d in ds:
+        for k in ((-3, 0, 7) if quick else (-30, -7, -3, 0, 2, 7, 20, 30)):
+            v = float("%de%d" % (d, k))
+            for ty in ("f32", "f64"):
+                if quick and rng.random() < 0.5:
+                    continue
+                bits = struct.unpack("<I", struct.pack("<f", v))[0] if ty == "f32" else struct.unpack("<Q", struct.pack("<d", v))[0]
+                ops.append("wf %s %s %x %s -" % (ty, f, bits, gens.wopts()))
     return ops
 
 
@@ -157,7 +175,7 @@ def special_punct_ops(rng, fs, quick):
 
 def streams(tier, rng, fs, profile):
     quick = tier == "quick"
-    return [("int-write", int_ops(rng, fs, quick)), ("float-write", float_ops(rng, fs, quick)),
+    return [("int-write", int_ops(rng, fs, quick)), ("float-write", float_ops(rng, fs, quick) + short_decimal_ops(rng, quick)),
             ("float-prefix", prefix_ops(rng, fs, quick)), ("float-special-punct", special_punct_ops(rng, fs, quick))]
 
 
